@@ -41,6 +41,40 @@ def run(ck, progs, tier):
         check_cqe_index(ck, prog, "C18.6")
         check_completion_head(ck, prog, "C18.6")
         check_flush_publishes(ck, prog, "C18.6")
+        check_ring_flag_tests(ck, prog, "C18.6")
+
+
+def check_ring_flag_tests(ck, prog, rule):
+    """the flags word the kernel keeps in a ring is tested with that ring's own bits (IORING_SQ_* for the submission ring,
+    IORING_CQ_* for the completion ring): IORING_ENTER_SQ_WAKEUP (2, an io_uring_enter argument) is not IORING_SQ_NEED_WAKEUP (1) -
+    with the wrong bit needs_wakeup() stays false on an idle SQPOLL ring, nobody wakes the poller and the queued operations never complete."""
+    n, bad = 0, []
+    for p, fn in prog.fns.items():
+        if fn["crate"] != "rusl" or fn.get("is_test"):
+            continue
+        c = None
+        for b in fn["blocks"]:
+            if b.get("cleanup"):
+                continue
+            for i, st in enumerate(b["stmts"]):
+                if st["k"] == "assign" and st["rv"]["k"] == "binop" and st["rv"].get("op") == "BitAnd":
+                    c = c or prog.ctx(fn)
+                    if b["id"] not in c.cfg.live_blocks():
+                        continue
+                    e = c.prov.rvalue(st["rv"], (b["id"], i))
+                    sides = [e[2], e[3]] if isinstance(e, tuple) and e[0] == "bin" and len(e) > 3 else []
+                    word = [x for x in sides if mentions(x, c.prov, lambda z: z[0] == "field" and z[2] == "kernel_flags")]
+                    if not word:
+                        continue
+                    n += 1
+                    ring = "SQ" if mentions(word[0], c.prov, lambda z: z[0] == "field" and z[2] == "submission_queue") else "CQ"
+                    other = [x for x in sides if x is not word[0]]
+                    names = [z[2] for x in other for z in walk_deep(x, c.prov, limit=30) if z[0] == "const" and z[2]]
+                    if not names or not all(str(nm).split("::")[-1].startswith(f"IORING_{ring}_") for nm in names):
+                        bad.append((p, c.site(b["id"]), names))
+    ck.floor(rule, "tests of a ring's kernel flags word", n, 1)
+    ck.ob(rule, "ring-flags-tested-with-the-rings-own-bits", not bad, fn=bad[0][0] if bad else None, site=bad[0][1] if bad else None,
+          detail=f"the kernel's ring flags word is masked with {bad[0][2] if bad else ''}: a bit of another flag namespace (enter / setup flags) means something else in this word")
 
 
 def run_one(ck, prog):
